@@ -13,7 +13,8 @@ DEFAULTS = dict(
     state_internal=0.3, sm_internal=0.3, completion=0.0, history=0.0, pseudo=0.0,
     deferral=0.0, flags=0.0, blocking=0.0, hierarchy_events=0.0, kleene=0.0,
     scripts=False, outer_rows_on_sub=0.8, policy='default', serialize=False,
-    subs_per_level=(1, 1), action_max=2, row_budget=18, visitable=False, terminate_only=False, puml_guards=False,
+    subs_per_level=(1, 1), action_max=2, row_budget=18, visitable=False, terminate_only=False, puml_guards=False, nested_deferral=False,
+    pseudo_kinds=('explicit', 'fork', 'entry_pt', 'exit_pt'),
 )
 
 PROFILES = {
@@ -22,6 +23,8 @@ PROFILES = {
     'hier': dict(depth=(2, 3), regions=(1, 2)),
     'completion': dict(completion=0.6, state_internal=0.0, sm_internal=0.0, depth=(1, 2)),
     'history': dict(history=1.0, depth=(2, 2), row_budget=13, state_internal=0.0, sm_internal=0.0, regions=(1, 3)),
+    'hist_explicit': dict(pseudo=1.0, history=1.0, pseudo_kinds=('explicit', 'fork', 'entry_pt'), row_budget=9, states_per_region=(2, 3),
+                          depth=(2, 2), state_internal=0.0, sm_internal=0.0, regions=(2, 3)),
     'pseudo': dict(pseudo=1.0, history=0.4, row_budget=10, states_per_region=(2, 2), depth=(2, 3), state_internal=0.0, sm_internal=0.0, regions=(1, 3)),
     'intro': dict(depth=(1, 3), regions=(1, 3), completion=0.3, history=0.5, pseudo=0.6, row_budget=10, states_per_region=(2, 3),
                   state_internal=0.2, sm_internal=0.0, scripts=True, visitable=True),
@@ -36,6 +39,8 @@ PROFILES = {
                  deferral=0.4, scripts=True),
     'serial': dict(depth=(1, 3), regions=(1, 3), history=0.7, pseudo=0.3, completion=0.2, row_budget=11, state_internal=0.2, sm_internal=0.0,
                    serialize=True),
+    'events': dict(depth=(1, 2), regions=(1, 2), hierarchy_events=1.0, kleene=0.7, nevents=(4, 5), state_internal=0.3, sm_internal=0.0,
+                   row_weights=(0, 1, 1, 2, 2, 3)),
     'flags': dict(flags=1.0, depth=(1, 3), state_internal=0.0, sm_internal=0.0, scripts=True),
     'policy_after_entry': dict(policy='after_entry', flags=0.7, depth=(1, 3), pseudo=0.3, row_budget=12, state_internal=0.2, sm_internal=0.0, scripts=True),
     'policy_after_action': dict(policy='after_action', flags=0.7, depth=(1, 3), pseudo=0.3, row_budget=12, state_internal=0.2, sm_internal=0.0, scripts=True),
@@ -44,7 +49,9 @@ PROFILES = {
     'policy_default': dict(policy='default', flags=0.7, depth=(1, 3), pseudo=0.3, row_budget=12, state_internal=0.2, sm_internal=0.0, scripts=True),
     'blocking': dict(blocking=1.0, depth=(1, 1), regions=(1, 3), flags=0.5, state_internal=0.0, sm_internal=0.0, completion=0.25, scripts=True),
     'queue': dict(scripts=True, depth=(1, 2), regions=(1, 2), completion=0.2, state_internal=0.2, sm_internal=0.0),
-    'defer': dict(deferral=1.0, scripts=True, depth=(1, 1), regions=(1, 1), completion=0.0, state_internal=0.0, sm_internal=0.0),
+    'defer': dict(deferral=1.0, scripts=True, depth=(1, 1), regions=(1, 3), completion=0.0, state_internal=0.0, sm_internal=0.0),
+    'defer_nested': dict(deferral=1.0, nested_deferral=True, scripts=True, depth=(2, 2), regions=(1, 2), completion=0.0, state_internal=0.0,
+                         sm_internal=0.0, row_budget=12),
     'throw': dict(scripts=True, depth=(1, 2), regions=(1, 2), completion=0.2, state_internal=0.2, sm_internal=0.0),
 }
 
@@ -218,8 +225,21 @@ class Gen:
         nev = self.ri(p['nevents'])
         events = ['E%d' % i for i in range(nev)]
         depth = self.ri(p['depth'])
-        root = self.machine(1, depth, 'Root', events)
-        sp = dict(profile=self.profile, events=[dict(name=e) for e in events], flags=[], root=root,
+        evdefs = [dict(name=e) for e in events]
+        triggers = list(events)
+        if p['hierarchy_events'] > 0:
+            # single inheritance, 1-2 levels: E1 : E0, E2 : E1 (or E2 : E0)
+            evdefs[1]['base'] = 'E0'
+            if nev > 2:
+                evdefs[2]['base'] = self.r.choice(['E1', 'E0'])
+        if p['hierarchy_events'] > 0:
+            for k_, e in enumerate(evdefs):
+                e['body'] = self.r.choice([1, 7, 24, 60, 200])
+        if p['kleene'] > 0 and self.r.random() < p['kleene']:
+            evdefs.append(dict(name='K', kleene=True))
+            triggers.append('K')
+        root = self.machine(1, depth, 'Root', triggers)
+        sp = dict(profile=self.profile, events=evdefs, flags=[], root=root,
                   features=dict(scripts=bool(p['scripts']), serialize=bool(p['serialize']), visitable=bool(p['visitable'])))
         if p['flags'] > 0:
             self.add_flags(sp)
@@ -241,6 +261,8 @@ class Gen:
         sp['nguards'] = min(self.natom, MAX_ATOMS)
         sp['nactions'] = self.nact
         sp['features']['sm_internal'] = any(m.get('internal') for m, _ in S.machines(sp))
+        if p.get('nested_deferral'):
+            sp['features']['exclude_cfgs'] = [1, 2, 3, 4]      # back/back11 document deferral at the level of the receiving machine only
         sp['id'] = S.spec_hash(sp)
         return sp
 
@@ -260,7 +282,7 @@ class Gen:
     def add_blocking(self, sp):
         r = self.r
         m = sp['root']
-        events = [e['name'] for e in sp['events']]
+        events = [e['name'] for e in sp['events'] if not e.get('kleene')]
         for reg in m['regions']:
             cand = [s for s in reg[1:] if m['states'][s]['kind'] == 'simple']
             if not cand or r.random() < 0.2:
@@ -323,13 +345,17 @@ class Gen:
                 others = [x for x in oreg if x != sname and m['states'][x]['kind'] in ('simple', 'explicit')]
                 if not others:
                     continue
-                kinds = ['explicit', 'fork', 'entry_pt', 'exit_pt']
+                kinds = list(self.p['pseudo_kinds'])
                 r.shuffle(kinds)
+                hs = sub.get('history')
+                listed = hs['shallow'] if isinstance(hs, dict) else []
                 for kind in kinds[: r.randint(2, 4)]:
                     if len(m['table']) >= MAX_ROWS - 1 or len(sub['table']) >= MAX_ROWS - 2:
                         break
                     src = r.choice(others)
                     ev = r.choice(events)
+                    if listed and r.random() < 0.6:
+                        ev = r.choice(listed)       # explicit entries on a listed event: the other regions must follow the memory
                     if kind == 'explicit':
                         ri_ = r.randrange(len(sub['regions']))
                         cands = [x for x in sub['regions'][ri_] if sub['states'][x]['kind'] in ('simple', 'explicit')]
@@ -385,36 +411,78 @@ class Gen:
                         m['table'].append(dict(src=dict(exit_pt=[sname, px]), ev=fwd, tgt=r.choice(others), guard=None, actions=self.actions()))
 
     def add_deferral(self, sp):
-        """Root-level deferral inside the documented back/back11 domain: a deferring state has no row on the
-        deferred event and neither has any state of a sibling region (single region profile)."""
+        """Deferral inside the documented domain. back/back11: declared in the machine that receives the event (root); a
+        deferring state has no row on the deferred event, and no state of a sibling region has one either (documented
+        limitation). With p['nested_deferral'] (backmp11 only) substates and submachine states defer as well."""
         r = self.r
         m = sp['root']
-        events = [e['name'] for e in sp['events']]
+        events = [e['name'] for e in sp['events'] if not e.get('kleene')]
         nd = r.randint(1, min(2, len(events) - 1))
+        if self.p.get('nested_deferral'):
+            nd = min(2, len(events) - 1)
         dev = sorted(r.sample(events, nd))
         sp['deferred_types'] = dev
-        for reg in m['regions']:
-            cands = [s for s in reg if m['states'][s]['kind'] == 'simple']
-            r.shuffle(cands)
-            k = r.randint(1, max(1, len(cands) - 1))
-            for s in cands[:k]:
-                d = sorted(r.sample(dev, r.randint(1, nd)))
-                m['states'][s]['deferred'] = d
-                # remove contradicting rows
-                m['table'] = [rw for rw in m['table'] if not (rw['src'] == s and rw['ev'] in d)]
-                if m['states'][s].get('internal'):
-                    m['states'][s]['internal'] = [rw for rw in m['states'][s]['internal'] if rw['ev'] not in d]
-        m['internal'] = [rw for rw in m.get('internal', []) if rw['ev'] not in dev]
-        # guarantee a way out of each deferring state
-        for reg in m['regions']:
-            for s in reg:
-                st = m['states'][s]
-                if st.get('deferred'):
-                    free = [e for e in events if e not in st['deferred']]
-                    if not any(rw['src'] == s and rw.get('tgt') not in (None, s) for rw in m['table']) and len(m['table']) < MAX_ROWS:
-                        tg = [t for t in reg if t != s]
-                        if tg and free:
-                            m['table'].append(dict(src=s, ev=r.choice(free), tgt=r.choice(tg), guard=None, actions=self.actions()))
+        targets = [(m, True)]
+        if self.p.get('nested_deferral'):
+            for mm, path in S.machines(sp):
+                if mm is not m:
+                    targets.append((mm, False))
+        for (mm, is_root) in targets:
+            deferring_regions = []
+            for ri, reg in enumerate(mm['regions']):
+                cands = [s for s in reg if mm['states'][s]['kind'] in ('simple', 'sub') and (is_root or mm['states'][s]['kind'] == 'simple')]
+                if not self.p.get('nested_deferral'):
+                    cands = [s for s in cands if mm['states'][s]['kind'] == 'simple']
+                r.shuffle(cands)
+                if self.p.get('nested_deferral'):
+                    # composite states first: a submachine state with its own deferred list around deferring substates
+                    cands.sort(key=lambda x: 0 if mm['states'][x]['kind'] == 'sub' else 1)
+                if not cands or (ri > 0 and r.random() < 0.5):
+                    continue
+                if deferring_regions and not self.p.get('nested_deferral'):
+                    # back / back11 store an event once per deferring region (known finding
+                    # back_event_stored_once_per_deferring_region): at most one region defers, so the search goes on behind it
+                    continue
+                k = r.randint(1, max(1, len(cands) - 1))
+                for s in cands[:k]:
+                    d = sorted(r.sample(dev, r.randint(1, nd)))
+                    st = mm['states'][s]
+                    if self.p.get('nested_deferral') and nd == 2:
+                        d = [dev[0]] if st['kind'] == 'sub' else r.choice([[dev[1]], [dev[1]], dev])
+                    if st['kind'] == 'sub':
+                        st['machine'].setdefault('as_state', {})['deferred'] = d
+                    else:
+                        st['deferred'] = d
+                    mm['table'] = [rw for rw in mm['table'] if not (rw['src'] == s and rw['ev'] in d)]
+                    if st.get('internal'):
+                        st['internal'] = [rw for rw in st['internal'] if rw['ev'] not in d]
+                deferring_regions.append(ri)
+            if deferring_regions:
+                # sibling regions must not handle a deferred type (documented limitation of back; kept for all back-ends)
+                for ri, reg in enumerate(mm['regions']):
+                    for s in reg:
+                        others_defer = [x for x in deferring_regions if x != ri]
+                        if others_defer:
+                            mm['table'] = [rw for rw in mm['table'] if not (isinstance(rw['src'], str) and rw['src'] == s and rw['ev'] in dev)]
+                            st = mm['states'][s]
+                            if st.get('internal'):
+                                st['internal'] = [rw for rw in st['internal'] if rw['ev'] not in dev]
+                mm['internal'] = [rw for rw in mm.get('internal', []) if rw['ev'] not in dev]
+            # guarantee a way out of each deferring state
+            for reg in mm['regions']:
+                for s in reg:
+                    st = mm['states'][s]
+                    dd = st.get('deferred') or (st['kind'] == 'sub' and st['machine'].get('as_state', {}).get('deferred')) or []
+                    if dd:
+                        free = [e for e in events if e not in dev] or [e for e in events if e not in dd]
+                        if not any(rw['src'] == s and rw.get('tgt') not in (None, s) and rw.get('guard') is None for rw in mm['table']) and len(mm['table']) < MAX_ROWS:
+                            tg = [t for t in reg if t != s and mm['states'][t]['kind'] in ('simple', 'sub')]
+                            if tg and free:
+                                mm['table'].append(dict(src=s, ev=r.choice(free), tgt=r.choice(tg), guard=None, actions=self.actions()))
+        if self.p.get('nested_deferral'):
+            # submachines that contain deferring states: rows of enclosing levels on deferred types would contradict them
+            for mm, path in S.machines(sp):
+                mm['table'] = [rw for rw in mm['table'] if rw['ev'] not in dev or not isinstance(rw['src'], str) or mm['states'][rw['src']]['kind'] != 'sub']
 
 
 def gen_spec(profile, seed, index=0):
